@@ -90,7 +90,7 @@ func NewPebbleScanner(dbPath string, opts PebbleScannerOptions) (*PebbleScanner,
 	if runtime.GOOS == "linux" {
 		sensitivePrefixes := []string{"/etc", "/root", "/usr", "/bin", "/sbin", "/boot"}
 		for _, sp := range sensitivePrefixes {
-			if strings.HasPrefix(absPath, sp) {
+			if absPath == sp || strings.HasPrefix(absPath, sp+"/") {
 				return nil, fmt.Errorf("security violation: refusing to initialize database in system directory %q", absPath)
 			}
 		}
